@@ -72,6 +72,40 @@ func propC16(c *Ctx) {
 	for _, i := range extremeInts {
 		c.lstr("extreme", i)
 	}
+	// decimal-rendering boundaries: powers of ten ±1, a·10^k, values with all-zero digit groups, and
+	// random 64-bit values of every magnitude
+	p10 := int64(1)
+	for k := 1; k <= 18; k++ {
+		p10 *= 10
+		for _, v := range []int64{p10 - 1, p10, p10 + 1, p10 - 2, p10 + 9} {
+			c.lstr("power-of-ten", v)
+			c.lstr("power-of-ten", -v)
+		}
+		for a := int64(2); a <= 9; a++ {
+			if k < 18 || a <= 9 && a*p10/p10 == a && a*p10 > 0 {
+				c.lstr("digit-times-power-of-ten", a*p10)
+				c.lstr("digit-times-power-of-ten", -(a*p10 + 123))
+			}
+		}
+	}
+	for a := int64(1); a <= 9; a++ {
+		for _, low := range []int64{0, 1, 123, 999999999, 1000000000, 1000000123} {
+			c.lstr("zero-digit-groups", a*1000000000000000000+low)
+			c.lstr("zero-digit-groups", -(a*1000000000000000000 + low))
+			c.lstr("zero-digit-groups", a*1000000000+low%1000000000)
+		}
+	}
+	nr := 3000
+	if !c.quick {
+		nr = 200000
+	}
+	for k := 0; k < nr; k++ {
+		v := int64(c.rng.Uint64()) >> uint(c.rng.Intn(64))
+		if c.rng.Intn(2) == 0 {
+			v = -v
+		}
+		c.lstr("random-int64", v)
+	}
 	names := map[string]bool{}
 	for li, v := range langVals {
 		impl := c.lstr("declared-constant", int64(v))
